@@ -232,10 +232,17 @@ def _protocol(ctx, col):
         why = "no `step = step or <manager>.latest_step()`"
         if stepsel is not None:
             v = stepsel.ast.value
+            def is_latest(e):
+                if isinstance(e, ast.Call) and isinstance(e.func, ast.Attribute) and e.func.attr == "latest_step":
+                    return True
+                if isinstance(e, ast.Name):  # a local bound once to <manager>.latest_step()
+                    defs = [n.ast for n in nodes if isinstance(n.ast, ast.Assign) and len(n.ast.targets) == 1
+                            and isinstance(n.ast.targets[0], ast.Name) and n.ast.targets[0].id == e.id]
+                    return len(defs) == 1 and is_latest(defs[0].value)
+                return False
+
             ok = (isinstance(v, ast.BoolOp) and isinstance(v.op, ast.Or) and len(v.values) == 2
-                  and isinstance(v.values[0], ast.Name) and v.values[0].id == "step"
-                  and isinstance(v.values[1], ast.Call) and isinstance(v.values[1].func, ast.Attribute)
-                  and v.values[1].func.attr == "latest_step")
+                  and isinstance(v.values[0], ast.Name) and v.values[0].id == "step" and is_latest(v.values[1]))
             if not ok and isinstance(v, ast.IfExp):
                 ok = ast.unparse(v.test) in ("step is not None", "step is None") and "latest_step" in ast.unparse(v)
             why = "explicit step if given, else the manager's latest step" if ok else f"step selected as `{ast.unparse(v)}`"
